@@ -201,7 +201,9 @@ pub fn check_c02(h: &History) -> Result<CaseInfo, Failure> {
     }
     // Published constants in the generated text
     let mut counters = vec![];
-    if let (Some(ms), Some(ma)) = (max_size, max_align) {
+    // generating the text is by far the most expensive step: done for one history in four
+    let sampled = hash_of(h) % 4 == 0;
+    if let (true, Some(ms), Some(ma)) = (sampled, max_size, max_align) {
         if let Ok(text) = catch_unwind(AssertUnwindSafe(|| generate(&def, &GeneratorConfig::default()))) {
             match published_numbers(&text) {
                 Some((pub_size, pub_aligns)) if !pub_aligns.is_empty() => {
